@@ -123,20 +123,28 @@ Definition item_tag (d : dist) (t : table) (k : Q) (ki : Z) : Z :=
                                    (if small_limit <? N then 0 else 1024))
    end)).
 
+(* the two comparisons made on one item, given ki = floor k: exact 0 outside the support / below it,
+   exact 1 from its top, otherwise within tol_abs of the table entry *)
+Definition pmf_ok_b (t : table) (ki : Z) (pm : xreal) : bool :=
+  if (ki <? t_lo t) || (t_hi t <? ki) then is_zero pm else tab_close t (t_w t) (ki - t_lo t) pm.
+Definition cdf_ok_b (t : table) (ki : Z) (cd : xreal) : bool :=
+  if ki <? t_lo t then is_zero cd else if t_hi t <=? ki then is_one cd else tab_close t (t_cum t) (ki - t_lo t) cd.
+
 (* result of one item: None = fine, Some (which, diag) = first failing observable (0 pmf, 1 cdf, 2 table/model) *)
 Definition check_item (d : dist) (t : table) (k : Q) (pm cd : xreal) : option (Z * list Z) :=
   let ki := Qfloor k in
   let lo := t_lo t in let hi := t_hi t in
   if negb (model_agrees d t ki) then Some (2, [ki]) else
-  let pmf_ok := if (ki <? lo) || (hi <? ki) then is_zero pm else tab_close t (t_w t) (ki - lo) pm in
-  if negb pmf_ok then Some (0, ki :: (if (ki <? lo) || (hi <? ki) then [0; 1; 0] else tab_val t (t_w t) (ki - lo))) else
-  let cdf_ok := if ki <? lo then is_zero cd else if hi <=? ki then is_one cd else tab_close t (t_cum t) (ki - lo) cd in
-  if negb cdf_ok then Some (1, ki :: (if ki <? lo then [0; 1; 0] else if hi <=? ki then [1; 1; 0] else tab_val t (t_cum t) (ki - lo))) else
+  if negb (pmf_ok_b t ki pm) then Some (0, ki :: (if (ki <? lo) || (hi <? ki) then [0; 1; 0] else tab_val t (t_w t) (ki - lo))) else
+  if negb (cdf_ok_b t ki cd) then Some (1, ki :: (if ki <? lo then [0; 1; 0] else if hi <=? ki then [1; 1; 0] else tab_val t (t_cum t) (ki - lo))) else
   None.
 
 (* items arrive as raw integers (k bits, pmf bits, cdf bits); an item whose floor(k) and observed
-   bit patterns equal those of the previous item needs no further arithmetic *)
-Fixpoint run_items (d : dist) (t : table) (items : list (Z * Z * Z)) (idx tag : Z) (prev : Z * Z * Z)
+   bit patterns equal those of the last COMPARED item needs no further arithmetic (its comparisons
+   would be the same ones: check_item depends on k only through floor k).  [prev] is None until an
+   item has been compared, so no item is ever accepted without a comparison having been made on
+   exactly its (floor k, pmf bits, cdf bits). *)
+Fixpoint run_items (d : dist) (t : table) (items : list (Z * Z * Z)) (idx tag : Z) (prev : option (Z * Z * Z))
   : Z * option (Z * Z * list Z) :=
   match items with
   | [] => (tag, None)
@@ -145,10 +153,13 @@ Fixpoint run_items (d : dist) (t : table) (items : list (Z * Z * Z)) (idx tag : 
       | XFin k =>
           let ki := Qfloor k in
           let tag' := Z.lor tag (item_tag d t k ki) in
-          let '(pki, ppb, pcb) := prev in
-          if (ki =? pki) && (pb =? ppb) && (cb =? pcb) then run_items d t rest (idx + 1) tag' prev
+          let same := match prev with
+                      | Some (pki, ppb, pcb) => (ki =? pki) && (pb =? ppb) && (cb =? pcb)
+                      | None => false
+                      end in
+          if same then run_items d t rest (idx + 1) tag' prev
           else match check_item d t k (decode_bits pb) (decode_bits cb) with
-               | None => run_items d t rest (idx + 1) tag' (ki, pb, cb)
+               | None => run_items d t rest (idx + 1) tag' (Some (ki, pb, cb))
                | Some (w, dg) => (tag', Some (idx, w, dg))
                end
       | _ => (tag, Some (idx, 3, []))           (* k must be finite: malformed *)
@@ -168,7 +179,7 @@ Definition finish (d : dist) (t : table) (hdr : list bool) (items : list (Z * Z 
   match first_false hdr with
   | Some i => verdict V_MISMATCH 1 i []
   | None =>
-      match run_items d t items 0 0 (-7, -1, -1) with
+      match run_items d t items 0 0 None with
       | (tag, None) => verdict V_OK tag (-1) []
       | (tag, Some (idx, w, dg)) =>
           if w =? 3 then verdict V_MALFORMED tag idx []
@@ -177,37 +188,69 @@ Definition finish (d : dist) (t : table) (hdr : list bool) (items : list (Z * Z 
       end
   end.
 
-Definition check_C06 (line : list Z) : list Z :=
+(* ---------- the decoded case ---------- *)
+Record bin_case := mkBin { b_n : Z; b_p : Q;
+                           b_mean : xreal; b_var : xreal; b_mu : xreal; b_sigma : xreal;
+                           b_lo : xreal; b_hi : xreal; b_step : xreal;
+                           b_items : list (Z * Z * Z) }.
+Record hg_case := mkHg { h_N : Z; h_K : Z; h_n : Z;
+                         h_mean : xreal; h_var : xreal;
+                         h_lo : xreal; h_hi : xreal; h_step : xreal;
+                         h_items : list (Z * Z * Z) }.
+(* CPanic op status: some call panicked (status <> 0); the rest of the line is not looked at *)
+Inductive c06case := CPanic (op st : Z) | CBin (c : bin_case) | CHg (c : hg_case).
+
+Definition p_bin : parser c06case :=
+  do n <- pZ; do p <- pQ; do mean <- pX; do var <- pX; do mu <- pX; do sg <- pX;
+  do lo <- pX; do hi <- pX; do stp <- pX; do items <- plist p_item;
+  pend (CBin (mkBin n p mean var mu sg lo hi stp items)).
+Definition p_hg : parser c06case :=
+  do N <- pZ; do K <- pZ; do n <- pZ; do mean <- pX; do var <- pX;
+  do lo <- pX; do hi <- pX; do stp <- pX; do items <- plist p_item;
+  pend (CHg (mkHg N K n mean var lo hi stp items)).
+Definition p_line : parser c06case := fun line =>
   match line with
-  | 6 :: 0 :: st :: rest =>
-      if negb (st =? 0) then verdict V_MISMATCH 1 (-2) [st] else
-      match (do n <- pZ; do p <- pQ; do mean <- pX; do var <- pX; do mu <- pX; do sg <- pX;
-             do lo <- pX; do hi <- pX; do stp <- pX; do items <- plist p_item;
-             pend (n, p, (mean, var, mu, sg), (lo, hi, stp), items)) rest with
-      | Some ((n, p, (mean, var, mu, sg), (lo, hi, stp), items), _) =>
-          if (n <? 0) || Qltb p 0 || Qltb 1 p then verdict V_MALFORMED 0 (-1) [] else
-          let '(emu, evar) := binom_normal_approx n p in
-          let hdr := [ xclose_rel tol_moment_rel (binom_mean n p) mean;
-                       xclose_rel tol_moment_rel (binom_var n p) var;
-                       xclose_rel tol_moment_rel emu mu;
-                       match sg with XFin s => close_sqrt (2 * tol_moment_rel * evar)%Q evar s | _ => false end;
-                       xis (fst (binom_bounds n)) lo; xis (snd (binom_bounds n)) hi; xis binom_step stp ] in
-          finish (DBin n p) (binom_table n p) hdr items
-      | None => verdict V_MALFORMED 0 (-1) []
-      end
-  | 6 :: 1 :: st :: rest =>
-      if negb (st =? 0) then verdict V_MISMATCH 1 (-2) [st] else
-      match (do N <- pZ; do K <- pZ; do n <- pZ; do mean <- pX; do var <- pX;
-             do lo <- pX; do hi <- pX; do stp <- pX; do items <- plist p_item;
-             pend (N, K, n, (mean, var), (lo, hi, stp), items)) rest with
-      | Some ((N, K, n, (mean, var), (lo, hi, stp), items), _) =>
-          if (N <? 2) || (K <? 0) || (N <? K) || (n <? 0) || (N <? n) then verdict V_MALFORMED 0 (-1) [] else
-          let hdr := [ xclose_rel tol_moment_rel (hg_mean N K n) mean;
-                       xclose_rel tol_moment_rel (hg_var N K n) var;
-                       true; true;
-                       xis (fst (hg_bounds N K n)) lo; xis (snd (hg_bounds N K n)) hi; xis hg_step stp ] in
-          finish (DHg N K n) (hg_table N K n) hdr items
-      | None => verdict V_MALFORMED 0 (-1) []
-      end
-  | _ => verdict V_MALFORMED 0 (-1) []
+  | 6 :: 0 :: st :: rest => if negb (st =? 0) then Some (CPanic 0 st, []) else p_bin rest
+  | 6 :: 1 :: st :: rest => if negb (st =? 0) then Some (CPanic 1 st, []) else p_hg rest
+  | _ => None
+  end.
+
+(* the parameter ranges the property speaks about; anything else is a malformed line *)
+Definition bin_valid (c : bin_case) : bool := negb ((b_n c <? 0) || Qltb (b_p c) 0 || Qltb 1 (b_p c)).
+Definition hg_valid_b (c : hg_case) : bool :=
+  negb ((h_N c <? 2) || (h_K c <? 0) || (h_N c <? h_K c) || (h_n c <? 0) || (h_N c <? h_n c)).
+
+(* header comparisons, in the order of the line: 0 Mean, 1 Variance, 2 NormalApprox.Mu, 3 NormalApprox.Sigma,
+   4 Bounds lo, 5 Bounds hi, 6 Step.  HypergeometicDist has no NormalApprox: positions 2, 3 are not on its
+   line and the two [true] only keep the position numbering common. *)
+Definition bin_hdr (c : bin_case) : list bool :=
+  let n := b_n c in let p := b_p c in
+  let '(emu, evar) := binom_normal_approx n p in
+  [ xclose_rel tol_moment_rel (binom_mean n p) (b_mean c);
+    xclose_rel tol_moment_rel (binom_var n p) (b_var c);
+    xclose_rel tol_moment_rel emu (b_mu c);
+    match b_sigma c with XFin s => close_sqrt (2 * tol_moment_rel * evar)%Q evar s | _ => false end;
+    xis (fst (binom_bounds n)) (b_lo c); xis (snd (binom_bounds n)) (b_hi c); xis binom_step (b_step c) ].
+Definition hg_hdr (c : hg_case) : list bool :=
+  let N := h_N c in let K := h_K c in let n := h_n c in
+  [ xclose_rel tol_moment_rel (hg_mean N K n) (h_mean c);
+    xclose_rel tol_moment_rel (hg_var N K n) (h_var c);
+    true; true;
+    xis (fst (hg_bounds N K n)) (h_lo c); xis (snd (hg_bounds N K n)) (h_hi c); xis hg_step (h_step c) ].
+
+Definition check_case (cs : c06case) : list Z :=
+  match cs with
+  | CPanic _ st => verdict V_MISMATCH 1 (-2) [st]
+  | CBin c =>
+      if negb (bin_valid c) then verdict V_MALFORMED 0 (-1) [] else
+      finish (DBin (b_n c) (b_p c)) (binom_table (b_n c) (b_p c)) (bin_hdr c) (b_items c)
+  | CHg c =>
+      if negb (hg_valid_b c) then verdict V_MALFORMED 0 (-1) [] else
+      finish (DHg (h_N c) (h_K c) (h_n c)) (hg_table (h_N c) (h_K c) (h_n c)) (hg_hdr c) (h_items c)
+  end.
+
+Definition check_C06 (line : list Z) : list Z :=
+  match p_line line with
+  | Some (cs, _) => check_case cs
+  | None => verdict V_MALFORMED 0 (-1) []
   end.
